@@ -374,8 +374,7 @@ def _lrepr_path(o: Path, **_) -> str:
 def _lrepr_pattern(o: Pattern, print_readably: bool = PRINT_READABLY, **_) -> str:
     if not print_readably:
         return f'#"{o.pattern}"'
-    # The reader reads regex literals as raw strings: backslashes are kept as they are
-    escaped = o.pattern.replace('"', '\\"')
+    escaped = o.pattern.encode("unicode_escape").replace(b'"', rb"\"").decode("utf-8")
     return f'#"{escaped}"'
 
 
